@@ -320,16 +320,13 @@ func judgeC03(root string, c c03Case) (string, string) {
 	destBefore, _ := fsmodel.Snapshot(dest)
 	h := &hostile{answer: c.Answer || c.Coop, eof: make(chan struct{}), idle: make(chan struct{}), coop: c.Coop}
 	h.cond = sync.NewCond(&h.mu)
-	// A FIN that is not preceded by the end-of-stats marker makes the receive loop read to end of
-	// stream and return nil while the differ still waits for the marker: Receive then only returns
-	// when its context is cancelled. That is not a containment question; the harness cancels the
+	// A FIN from the peer that precedes the receiver's own FIN makes the receive loop read (and drop)
+	// everything up to end of stream and return nil, while the differ still waits for the end marker
+	// or for content that was dropped: Receive then only returns when its context is cancelled. That is not a containment question; the harness cancels the
 	// context once the whole script has been consumed (counted in the evidence).
 	unsolicitedFin := false
 	for _, s := range c.Script {
-		if s.T == "end" {
-			break
-		}
-		if s.T == "fin" {
+		if s.T == "fin" { // any FIN of the script precedes the receiver's own FIN
 			unsolicitedFin = true
 		}
 	}
@@ -429,10 +426,10 @@ func judgeC03(root string, c c03Case) (string, string) {
 		}
 		destAfter, _ := fsmodel.Snapshot(dest)
 		for _, s := range c.Script[bad:] {
-			if s.T != "stat" || s.Path == "" || earlier[s.Path] {
+			p := path.Clean(s.Path)
+			if s.T != "stat" || s.Path == "" || earlier[s.Path] || earlier[p] {
 				continue
 			}
-			p := path.Clean(s.Path)
 			if strings.HasPrefix(p, "..") || strings.HasPrefix(p, "/") || p == "." {
 				continue // outside dest: covered by the outside comparison
 			}
@@ -561,13 +558,10 @@ func childC03(args []string) int {
 	return 0
 }
 
-// redundantAfterFin: packets after a FIN that is not preceded by the end marker are read and
-// dropped by the receiver, so such a script behaves like its prefix up to the FIN.
+// redundantAfterFin: packets after a FIN are read and dropped by the receiver, so such a script
+// behaves like its prefix up to the FIN.
 func redundantAfterFin(sc []sym) bool {
 	for i, s := range sc {
-		if s.T == "end" {
-			return false
-		}
 		if s.T == "fin" {
 			return i < len(sc)-1
 		}
